@@ -102,6 +102,15 @@ def run(run):
                             from kaira.models.generic import SequentialModel
                             cfg["route"] = "SequentialModel(x, snr tensor)"
                             y = SequentialModel(steps=[mk(T)])(torch.ones(shape), torch.full((shape[0], 1), 10.0))
+                        elif (T + L) % 4 == 2:
+                            with torch.no_grad():
+                                y = mk(T)(torch.ones(shape))
+                            cfg["route"] = "no_grad"
+                        elif (T + L) % 4 == 3 and len(shape) >= 2:
+                            import copy
+                            from .core import transposed_view
+                            y = copy.deepcopy(mk(T)).eval()(transposed_view(torch.ones(shape)))
+                            cfg["route"] = "deepcopy + eval on a transposed view"
                         else:
                             y = mk(T)(torch.ones(shape))
                     except Exception as ex:
